@@ -332,10 +332,31 @@ def forced_backtrack_cases(rng, n):
         leaf = gen_leaf(rng, 1, cols, src_eng, special=0)
         base = ("xfer", mid_eng, leaf) if rng.random() < 0.8 else leaf
         keep = sorted(c for c in cols if rng.random() < 0.6) or [sorted(cols)[0]]
-        kind = rng.choice(["calc_past_proj", "join_past_proj", "proj_past_calc", "sort_past_sort", "calc_recreates"])
+        kind = rng.choice(["calc_past_proj", "join_past_proj", "proj_past_calc", "sort_past_sort", "calc_recreates",
+                           "partial_proj", "partial_proj"])
         pref = rng.choice([src_eng, third])
         opts = (pref, True, rng.random() < 0.5, False)
-        if kind == "calc_past_proj":
+        if kind == "partial_proj":
+            # a projection that can only partly be inserted upstream (a selection needs a column it drops), below
+            # operations that assumed all of it would be: a dropped projection, a calculation re-creating a column
+            cs = sorted(cols)
+            c = rng.choice(cs)
+            rest = [x for x in cs if x != c] or cs
+            p = ("un", ("sel", ("cmp", "ge", ("ref", c), ("lit", 1))), DEFAULT, ("xfer", mid_eng, leaf))
+            keep2 = sorted(x for x in rest if rng.random() < 0.7) or [rest[0]]
+            p = ("un", ("proj", keep2), DEFAULT, p)
+            last, must = set(keep2), set()
+            if rng.random() < 0.85:
+                t = c if rng.random() < 0.8 else gen.fresh_tag(rng, set(cols))
+                p = ("un", ("calc", t, gen.gen_expr(rng, keep2, 1, need_col=True)), DEFAULT, p)
+                last.add(t)
+                must = {t} if rng.random() < 0.85 else set()
+            if rng.random() < 0.3:
+                o, _c = gen.gen_op(rng, last, weights=[0, 0, 0, 2, 1, 2])
+                p = ("un", o, DEFAULT, p)
+            final = sorted(must | {x for x in last if rng.random() < 0.5}) or [sorted(last)[0]]
+            p = ("un", ("proj", final), (src_eng, True, rng.random() < 0.5, False), p)
+        elif kind == "calc_past_proj":
             p = ("un", ("proj", keep), DEFAULT, base)
             t = gen.fresh_tag(rng, set(cols))
             p = ("un", ("calc", t, gen.gen_expr(rng, keep, 1, need_col=True)), opts, p)
